@@ -188,4 +188,27 @@ func init() {
 (assert (forall ((c Int) (v Int) (i0 Real) (k Int)) (! (=> (< k 0) (= (nviR c v i0 k) i0)) :pattern ((nviR c v i0 k)))))
 (assert (forall ((c Int) (v Int) (i0 Real) (k Int)) (! (=> (>= k 0) (= (nviR c v i0 k) (+ (nviR c v i0 (- k 1)) (ite (<= (- (sel_Real v (+ k 1)) (sel_Real v k)) 0.0) (* (/ (- (sel_Real c (+ k 1)) (sel_Real c k)) (sel_Real c k)) (nviR c v i0 (- k 1))) 0.0)))) :pattern ((nviR c v i0 k)))))
 `})
+	// SuperTrend recursion over the aligned streams m (median price), a (multiplier * ATR), c (closing):
+	// stFU / stFL: final upper / lower band, stUP: SuperTrend is on the upper band (the code's upTrend)
+	stSMT := `
+(declare-fun stFU (Int Int Int Int) Real)
+(declare-fun stFL (Int Int Int Int) Real)
+(declare-fun stUP (Int Int Int Int) Bool)
+(assert (forall ((m Int) (a Int) (c Int) (k Int)) (! (=> (<= k 0) (= (stFU m a c k) (+ (sel_Real m 0) (sel_Real a 0)))) :pattern ((stFU m a c k)))))
+(assert (forall ((m Int) (a Int) (c Int) (k Int)) (! (=> (> k 0) (= (stFU m a c k) (ite (or (< (+ (sel_Real m k) (sel_Real a k)) (stFU m a c (- k 1))) (> (sel_Real c (- k 1)) (stFU m a c (- k 1)))) (+ (sel_Real m k) (sel_Real a k)) (stFU m a c (- k 1))))) :pattern ((stFU m a c k)))))
+(assert (forall ((m Int) (a Int) (c Int) (k Int)) (! (=> (<= k 0) (= (stFL m a c k) (- (sel_Real m 0) (sel_Real a 0)))) :pattern ((stFL m a c k)))))
+(assert (forall ((m Int) (a Int) (c Int) (k Int)) (! (=> (> k 0) (= (stFL m a c k) (ite (or (> (- (sel_Real m k) (sel_Real a k)) (stFL m a c (- k 1))) (< (sel_Real c (- k 1)) (stFL m a c (- k 1)))) (- (sel_Real m k) (sel_Real a k)) (stFL m a c (- k 1))))) :pattern ((stFL m a c k)))))
+(assert (forall ((m Int) (a Int) (c Int) (k Int)) (! (=> (<= k 0) (= (stUP m a c k) false)) :pattern ((stUP m a c k)))))
+(assert (forall ((m Int) (a Int) (c Int) (k Int)) (! (=> (> k 0) (= (stUP m a c k) (ite (stUP m a c (- k 1)) (<= (sel_Real c k) (stFU m a c k)) (not (>= (sel_Real c k) (stFL m a c k)))))) :pattern ((stUP m a c k)))))
+`
+	addPrelude(&PreludeFn{Name: "stFU", Args: []string{"stream", "stream", "stream", "int"}, Ret: "real", Deps: []string{"sel_Real"}, SMT: stSMT})
+	addPrelude(&PreludeFn{Name: "stFL", Args: []string{"stream", "stream", "stream", "int"}, Ret: "real", Deps: []string{"sel_Real", "stFU"}, SMT: ""})
+	addPrelude(&PreludeFn{Name: "stUP", Args: []string{"stream", "stream", "stream", "int"}, Ret: "bool", Deps: []string{"sel_Real", "stFU"}, SMT: ""})
+	// kamaR(c,s,P,k): KAMA = Previous KAMA + SC * (Price - Previous KAMA), seeded with the price at position P-1;
+	// value k uses the smoothing constant s[k] and the price c[P+k]
+	addPrelude(&PreludeFn{Name: "kamaR", Args: []string{"stream", "stream", "int", "int"}, Ret: "real", Deps: []string{"sel_Real"}, SMT: `
+(declare-fun kamaR (Int Int Int Int) Real)
+(assert (forall ((c Int) (s Int) (P Int) (k Int)) (! (=> (< k 0) (= (kamaR c s P k) (sel_Real c (- P 1)))) :pattern ((kamaR c s P k)))))
+(assert (forall ((c Int) (s Int) (P Int) (k Int)) (! (=> (>= k 0) (= (kamaR c s P k) (+ (kamaR c s P (- k 1)) (* (sel_Real s k) (- (sel_Real c (+ P k)) (kamaR c s P (- k 1))))))) :pattern ((kamaR c s P k)))))
+`})
 }
